@@ -8,9 +8,6 @@
 //@harness name=create_zero_precision_at_edges tier=quick label=bounded(durations=[1,1,1],delta-window,concrete-data) props=C05 timeout=900
 //@harness name=create_zero_precision_width5 tier=quick label=bounded(5-frames,width-5-window,concrete-data) props=C05 timeout=900
 //@harness name=create_zero_precision_next_to_unvoiced tier=quick label=bounded(3-frames,delta-window,concrete-data) props=C05,C11 timeout=900
-//@harness name=hole_gv_switch_contract tier=quick label=bounded(2-states,durations=[1,2],concrete) props=C12 timeout=600
-//@harness name=par_without_gv_is_plain_solve tier=quick label=bounded(T=2) props=C12 timeout=600
-//@harness name=gv_no_eligible_frame_returns_input tier=quick label=bounded(T=2) props=C12 timeout=600
 use super::*;
 use crate::model::voice::window::Window;
 
@@ -122,54 +119,5 @@ fn create_zero_precision_next_to_unvoiced() {
     let adj = MlpgAdjust::new(1.0, 0.5, ModelStream { vector_length: 1, stream, gv: None, windows: &windows });
     let out = adj.create(&[1, 1, 1]);
     assert!(out.len() == 3 && out[1][0] == NODATA);
-    kani::cover!(true);
-}
-
-/// C12: a stream without GV ignores the GV weight: par(&None, ..) is exactly solve()
-#[kani::proof]
-#[kani::unwind(8)]
-fn par_without_gv_is_plain_solve() {
-    let windows = static_windows();
-    let mk = || MlpgMatrix::calc_wuw_and_wum(&windows, vec![vec![MeanVari(1.5, 0.5), MeanVari(-2.0, 0.25)]]);
-    let w: f64 = kani::any();
-    let mask: Mask = [true, true].into_iter().collect();
-    let a = mk().par(&None, 0, w, &[1, 1], &mask);
-    let b = mk().solve();
-    assert!(a.len() == 2 && b.len() == 2);
-    assert!(a[0].to_bits() == b[0].to_bits() && a[1].to_bits() == b[1].to_bits());
-    kani::cover!(true);
-}
-
-/// C12: with no GV-eligible frame the trajectory is returned unchanged (the plain ML solution)
-#[kani::proof]
-#[kani::unwind(8)]
-fn gv_no_eligible_frame_returns_input() {
-    let windows = static_windows();
-    let mtx = MlpgMatrix::calc_wuw_and_wum(&windows, vec![vec![MeanVari(1.5, 0.5), MeanVari(-2.0, 0.25)]]);
-    let p: [f64; 2] = kani::any();
-    let sw = [false, false];
-    let gvm: f64 = kani::any();
-    let gvv: f64 = kani::any();
-    let out = mlpg::MlpgGlobalVariance::new(mtx, vec![p[0], p[1]], &sw).apply_gv(gvm, gvv);
-    assert!(out.len() == 2);
-    assert!(out[0].to_bits() == p[0].to_bits() && out[1].to_bits() == p[1].to_bits());
-    kani::cover!(true);
-}
-
-/// hole `gv_switch` of Verus unit gvpar: the per-state GV switch expanded by the durations, then
-/// restricted to the voiced frames
-#[kani::proof]
-#[kani::unwind(8)]
-fn hole_gv_switch_contract() {
-    // concrete switch values (symbolic ones time out: flat_map / repeat / take / filter_map chains)
-    let sw: [bool; 2] = [true, false];
-    let gv_switch: &Vec<bool> = &vec![sw[0], sw[1]];
-    let durations: &[usize] = &[1, 2];
-    let mask: Mask = [true, false, true].into_iter().collect();
-    let msd_flag = &mask;
-    let r: Vec<bool> = /*@HOLE gv_switch@*/;
-    // frames: state0, state1, state1; the middle frame is unvoiced and dropped
-    assert!(r.len() == 2);
-    assert!(r[0] == sw[0] && r[1] == sw[1]);
     kani::cover!(true);
 }
